@@ -49,6 +49,7 @@ class StreamRig:
         self.tr = self.rig.net.conns[0]
         self.case_base = case_base
         self.n_feeds = 0
+        self.n_conns = 1
         # reference delivery: unsegmented
         self.base = self.feed([], "none", check=False)
         exp = [(f.to, f.frm, f.pid, f.mtype, len(f.data)) for f in refproto.parse_all(gen, self.stream)]
@@ -81,12 +82,39 @@ class StreamRig:
         del rig.received[: ]
         if check:
             case = dict(self.case_base, cuts=list(cuts), gap=gap)
-            if len(rig.net.conns) != 1 or not self.tr.alive or not rig.sock.is_connected:
+            if len(rig.net.conns) != self.n_conns or not self.tr.alive or not rig.sock.is_connected:
                 raise Violation("C13:reset", f"segmentation cuts={list(cuts)} gap={gap} reset the connection", case)
             if out != self.base:
                 raise Violation("C13:differs", f"segmentation cuts={list(cuts)} gap={gap}: delivered {len(out)} messages "
                                                f"{[h for h, _ in out]} != unsegmented delivery {[h for h, _ in self.base]}", case)
         return out
+
+    def die_and_resend(self, k: int):
+        """The most drastic segment boundary: the connection is lost after the first k bytes; the console sends the
+        stream again, whole, on the connection the client opens next.  Nothing of the torn frame may leak into it."""
+        rig, loop = self.rig, self.rig.loop
+        case = dict(self.case_base, cuts=[k], gap="connection-lost-then-resent")
+        self.tr.feed(self.stream[:k])
+        loop.settle()
+        self.tr.peer_eof()
+        loop.settle()
+        for _ in range(80):
+            cur = rig.net.current
+            if rig.sock.is_connected and cur is not None and cur is not self.tr and cur.alive:
+                break
+            loop.advance(0.125)
+        cur = rig.net.current
+        if cur is None or cur is self.tr or not rig.sock.is_connected:
+            raise Violation("C13:no-reconnect", f"connection lost after {k} bytes: no new connection within 10 s", case)
+        self.tr = cur
+        self.n_conns = len(rig.net.conns)
+        del rig.received[:]
+        try:
+            self.feed([], "none")
+        except Violation as v:
+            v.case = case
+            v.what = f"after a connection that was lost {k} bytes into the stream: " + v.what
+            raise
 
     def nontrivial(self, cuts) -> bool:
         return any(c not in self.bounds for c in cuts)
@@ -126,6 +154,17 @@ def run_stream(gen, msgs, extra_cutsets, gaps_cycle, tier, stats: Stats | None):
             classes.append("exhaustive-3cuts")
         for cs in extra_cutsets:
             go(sorted({1 + c % (n - 1) for c in cs}) if n > 1 else [])
+        # connection lost inside a frame (after its header / inside its payload / inside its check bytes), stream re-sent
+        hl = refproto.header_len(gen)
+        starts = [0] + sorted(sr.bounds)[:-1]
+        ks = {starts[-1] + hl, starts[-1] + hl + 1, n - 1, n - 2, starts[0] + hl}
+        for cs in extra_cutsets[:2]:
+            ks |= {1 + c % (n - 1) for c in list(cs)[:2]} if n > 1 else set()
+        for k in sorted(k for k in ks if 0 < k < n):
+            sr.die_and_resend(k)
+            count += 1
+            nt += 1 if k not in sr.bounds else 0
+            classes.append("connection-lost-mid-stream") if "connection-lost-mid-stream" not in classes else None
         if stats is not None:
             stats.evaluations += count
             stats.nt_disjoint += nt
@@ -164,7 +203,7 @@ def shards(tier: str):
 
 
 def floors(tier: str):
-    f = {"single-cuts": 100, "segmentations": 10000}
+    f = {"single-cuts": 100, "segmentations": 10000, "connection-lost-mid-stream": 100}
     f["exhaustive-2cuts" if tier == "quick" else "exhaustive-3cuts"] = 3
     return f
 
@@ -186,7 +225,10 @@ def replay(case):
     try:
         sr = StreamRig(case["gen"], msgs, {"gen": case["gen"], "msgs": case["msgs"]})
         try:
-            sr.feed(case["cuts"], case["gap"])
+            if case["gap"] == "connection-lost-then-resent":
+                sr.die_and_resend(case["cuts"][0])
+            else:
+                sr.feed(case["cuts"], case["gap"])
         finally:
             sr.dispose()
     except Violation as v:
